@@ -4,7 +4,8 @@
     name come from one build (same source and fingerprint) and are numbered 0..m-1.  The empty index is
     well-formed and every run of the command (either mode, either sub-command, failing or not) keeps it so
     ([C34_wf_on_every_history]); so the convergence theorem applies to every state reachable by the tool. *)
-From ZV Require Import Lib.Base Model.LocalSync Proofs.LocalSync Proofs.LocalSyncConv.
+From ZV Require Import Lib.Base Model.LocalSync Proofs.LocalSync Proofs.LocalSyncConv Proofs.LocalSyncMore.
+From Coq Require Import Permutation.
 
 (** If discovery fails — two discovered repositories would get the same name (E_DUP_NAME), one repository is
     reached through two roots (E_DUP_SOURCE), or a root is missing / not a directory / repeated (E_ROOT) — the
@@ -33,6 +34,16 @@ Theorem C34_discover_spec : forall e ch q b,
 Proof. exact walk_spec. Qed.
 Print Assumptions C34_discover_spec.
 
+(** The same in closed form, for trees whose directories have distinct entry names ([uniq_names]; true of any real
+    directory): the directory at relative path [q] is reported with kind [b] iff it is a repository of that kind
+    and no directory strictly above it (from the root down) is a repository — the outermost repository wins,
+    nested repositories are never reported. *)
+Theorem C34_discover_closed_form : forall q n e b, uniq_names n ->
+  In (q, b) (walk e [] n) <->
+  kind_at e n q = Some b /\ forall p, proper_prefix p q -> kind_at e n p = None.
+Proof. exact walk_closed. Qed.
+Print Assumptions C34_discover_closed_form.
+
 (** Discovered names are pairwise distinct whenever discovery succeeds. *)
 Theorem C34_discovered_names_distinct : forall tree roots specs,
   discover tree roots = Ok specs -> NoDup (map sp_name specs).
@@ -57,6 +68,18 @@ Theorem C34_converges : forall tree w roots inv,
         fp_of w (sp_source s) = Some (sh_fp sh) /\ sh_bad sh = false).
 Proof. exact sync_force_converges. Qed.
 Print Assumptions C34_converges.
+
+(** "Exactly one": after a successful sync -f on a well-formed index the repository names in the index (one per
+    first shard "<n>_v16.00000.zoekt") are a permutation of the discovered names, and every shard file belongs
+    to one of them and holds the repository its file name says. *)
+Theorem C34_exactly_one_repository_per_spec : forall tree w roots inv,
+  wf inv -> r_status (run_sync Force tree w roots inv) = 0%N ->
+  exists specs, discover tree roots = Ok specs /\
+    let inv' := apply_ops inv (r_ops (run_sync Force tree w roots inv)) in
+    Permutation (map sp_name specs) (map (fun sh => fst (sh_file sh)) (first_shards inv')) /\
+    (forall sh, In sh inv' -> In (fst (sh_file sh)) (map sp_name specs) /\ sh_repo sh = fst (sh_file sh)).
+Proof. exact sync_force_exactly_one. Qed.
+Print Assumptions C34_exactly_one_repository_per_spec.
 
 (** All histories: starting from the empty index, any sequence of sync / remove runs (preview or forced,
     succeeding or failing, over arbitrary worlds) leaves a well-formed index, so [C34_converges] applies. *)
